@@ -54,7 +54,12 @@ class DempsterShafer(NominalValueMixin, _PboxOpsMixin):
         masses: ArrayLike,
     ):
 
-        self._intervals = make_vec_interval(intervals)
+        v = make_vec_interval(intervals)
+        # own copy of the endpoints: the structure must not follow later in-place changes
+        # of the array / Interval object the caller passed in (the masses are copied too)
+        self._intervals = Interval(
+            lo=np.array(v.lo, dtype=float), hi=np.array(v.hi, dtype=float)
+        )
         self._masses = np.array(masses)
 
     def _create_DSstructure(self):
